@@ -21,7 +21,8 @@ RULE = ("scope trees with node kinds {function, class, lambda, comprehension}, t
         "chains (sampled in quick), exhaustive depth-4 chains over a reduced role set, seeded sample of depth-3/4 trees with "
         "two children; x 9-11 module-level roles; only programs CPython runs without exception are judged; hosts 3.12 + "
         "3.11 (symtable layout changes at 3.12), thorough 3.10-3.13. Distinct by (tree, module role, options); non-trivial "
-        "iff the original logged at least two reads of x.")
+        "iff the original logged at least two reads of x."
+        ' Function roles also cover every parameter kind of a def (positional-only, *args, **kwargs, keyword-only with default) captured / rebound by the scopes below, and assignment expressions in `while` tests and `for` iterables in function, class and module scopes. Cases hit by one of the two measured CPython >= 3.12 comprehension-inlining defects are inconclusive (input-side predicate, the second one also confirmed on the real 3.10 and 3.11 binaries).')
 ASSUMPTIONS = ["values are logged by repr (callables/classes/modules by type name)",
                "programs CPython rejects or that raise are out of domain and only counted"]
 EXHAUSTIVE = {"quick": False, "thorough": False}
